@@ -366,7 +366,19 @@ class Gen:
                         rng.random() < 0.25:
                     d = self.default_for(p['type'])
                     if d != '__none__':
+                        old = p['default']
                         p['default'] = d
+                        # descendants copied the parameter list when they
+                        # were made: they inherit the new default (a
+                        # descendant whose default differs from that of an
+                        # ancestor that removes defaults would be a
+                        # contradiction of the model's own making)
+                        for dc in self.classes:
+                            if c['name'] in self.ancestors(dc):
+                                for q in dc['params']:
+                                    if q['name'] == p['name'] and q.get(
+                                            'default') == old:
+                                        q['default'] = d
         for b in self.classes:
             if b.get('kind') != 'plain' or b.get('sweeten') or \
                     b.get('defaults_override') or chain_has_removal(b):
